@@ -460,6 +460,11 @@ Definition wf_ast (h : header) (a : ast) : bool :=
   && forallb (fun i => (0 <=? i) && (i <? h_typecnt h)) (a_idx a)
   && forallb (fun ty => let '(o, _, ai) := ty in (-86400 <? o) && (o <? 86400) && (0 <=? ai) && (ai <? h_charcnt h)) (a_types a)
   && footer_consistent z && footer_rule_ok z
+  (* the type before the first transition must be unambiguous: either no
+     transition refers to type 0 (every file written by current zic; RFC 8536
+     then designates type 0), or the rule tzcode applies to old files also
+     yields type 0 *)
+  && (negb (existsb (fun i => i =? 0) (a_idx a)) || (default_type_spec a =? 0))
   (* every abbreviation is NUL-terminated inside the table (RFC 8536) *)
   && (match rev (a_abbr a) with c :: _ => c =? 0 | [] => false end)
   (* a first entry at -2^59 (pre-2018 zic "big bang") is a sentinel, not a
